@@ -53,6 +53,11 @@ items = {
      ('\tsg.latest = &latest\n\n\treturn sth, nil', '\tsg.latest = &latest\n\tif len(sth.TreeHeadSignature.Signature) == 0 {\n\t\treturn nil, fmt.Errorf("failed to sign tree head: %v", err)\n\t}\n\n\treturn sth, nil')]),
  'm07-no-lock': (T6, [('\tsg.mu.Lock()\n\tdefer sg.mu.Unlock()\n', '')]),
  'm10-remembered-modified-in-place': (T6, [('\tlatest := *sth\n\tsg.latest = &latest\n', '\tlatest := *sth\n\tsg.latest = &latest\n\tsg.latest.Timestamp = sth.Timestamp / 1000 * 1000\n')]),
+ 'm11-empty-tree-returned-unsigned': (T6, [('\t// Clients poll far more often', '\tif sth.TreeSize == 0 {\n\t\treturn sth, nil\n\t}\n\t// Clients poll far more often')]),
+ 'm12-hit-tested-before-root-hash-is-copied': (T6, [
+     ('\t// Note: The size was checked in getSignedLogRoot.\n\tcopy(sth.SHA256RootHash[:], currentRoot.RootHash)\n', ''),
+     ('\t// Add the signature over the STH contents.\n', '\t// Note: The size was checked in getSignedLogRoot.\n\tcopy(sth.SHA256RootHash[:], currentRoot.RootHash)\n\t// Add the signature over the STH contents.\n')]),
+ 'b05-compare-with-the-root-values': (T6, [(HIT, 'if l := sg.latest; l != nil && l.TreeSize == uint64(currentRoot.TreeSize) && l.Timestamp == uint64(currentRoot.TimestampNanos/1000/1000) && l.SHA256RootHash == sth.SHA256RootHash {')]),
  'b01-explicit-unlock': (T6, [
      ('\tsg.mu.Lock()\n\tdefer sg.mu.Unlock()\n', '\tsg.mu.Lock()\n'),
      ('\t\tsth.TreeHeadSignature = l.TreeHeadSignature\n\t\treturn sth, nil', '\t\tsth.TreeHeadSignature = l.TreeHeadSignature\n\t\tsg.mu.Unlock()\n\t\treturn sth, nil'),
